@@ -1,42 +1,49 @@
-(* C13 - any input type can be rendered in any output format and mode (statements only). *)
+(* C13 - any input type can be rendered in any output format and mode (statements only).
+   it : input type, ds : dictionary strategy (auto / match / none = -k), of : output format, m : mode. *)
 From Coq Require Import String List Bool.
 Require Import GT.PyBase GT.DispatchSpec GT.DispatchModel GT.DispatchProofs.
 Import ListNotations.
 Open Scope string_scope.
 
 (* reachability of (formatter instance, class) covers every tree produced by an input type, of any size *)
-Theorem C13_cover : forall it of m t c x,
-  In it input_types -> In of input_types -> renders it of m t c x ->
-  In c (reach TB (grammar TB it) (root_class TB of) m) /\ fits (grammar TB it) c x = true.
+Theorem C13_cover : forall it ds of m t c x,
+  In it input_types -> In of input_types -> renders it ds of m t c x ->
+  In c (reach TB (grammar_o TB it ds) (root_class TB of) m) /\ fits (grammar_o TB it ds) c x = true.
 Proof. exact DispatchProofs.C13_cover. Qed.
 
 (* dispatch totality *)
-Theorem C13_dispatch_total : forall it of m t c x,
-  In it input_types -> In of input_types -> renders it of m t c x ->
+Theorem C13_dispatch_total : forall it ds of m t c x,
+  In it input_types -> In of input_types -> renders it ds of m t c x ->
   exists f meth ow, resolve TB (mro_of TB (c_cls c)) (Some (c_f c)) = RFound f meth /\
                     has_print TB (fcls f) meth = Some ow.
 Proof. exact DispatchProofs.C13_dispatch_total. Qed.
 
-(* the property outside the two known-finding classes (delimited by the model itself) *)
-Theorem C13_partial : forall it of m,
+(* no unbounded re-dispatch of the same item *)
+Theorem C13_no_loop : forall it ds of m t c x,
+  In it input_types -> In of input_types -> renders it ds of m t c x -> sloop TB c = false.
+Proof. exact DispatchProofs.C13_no_loop. Qed.
+
+(* the property outside the known-finding classes (delimited by the model itself) *)
+Theorem C13_partial : forall it ds of m,
   In it input_types -> In of input_types ->
-  kf_reparent_cfg TB (grammar TB it) (root_class TB of) m = false ->
-  kf_emit_cfg TB (grammar TB it) (root_class TB of) m = false ->
-  forall t c x, renders it of m t c x -> node_ok TB (grammar TB it) c x = true.
+  kf_reparent_cfg TB (grammar_o TB it ds) (root_class TB of) m = false ->
+  kf_emit_cfg TB (grammar_o TB it ds) (root_class TB of) m = false ->
+  forall t c x, renders it ds of m t c x -> node_ok TB (grammar_o TB it ds) c x = true.
 Proof. exact DispatchProofs.C13_partial. Qed.
 
-Theorem C13_edits_mode : forall it of t c x, ~ renders it of MEdits t c x.
+Theorem C13_edits_mode : forall it ds of t c x, ~ renders it ds of MEdits t c x.
 Proof. exact DispatchProofs.C13_edits_mode. Qed.
 
 (* the full-strength statement is false on this tree: D9 and D19 *)
 Theorem C13_refuted :
-  (exists c x, renders "xml" "json" MDiff xml_doc c x /\ node_ok TB (grammar TB "xml") c x = false) /\
-  (exists c x, renders "json" "plist" MDiff null_doc c x /\ node_ok TB (grammar TB "json") c x = false) /\
-  (exists c x, renders "json" "yaml" MDigest kvp_doc c x /\ node_ok TB (grammar TB "json") c x = false).
+  (exists c x, renders "xml" DSAuto "json" MDiff xml_doc c x /\ node_ok TB (grammar_o TB "xml" DSAuto) c x = false) /\
+  (exists c x, renders "json" DSAuto "plist" MDiff null_doc c x /\ node_ok TB (grammar_o TB "json" DSAuto) c x = false) /\
+  (exists c x, renders "json" DSAuto "yaml" MDigest kvp_doc c x /\ node_ok TB (grammar_o TB "json" DSAuto) c x = false).
 Proof. exact DispatchProofs.C13_refuted. Qed.
 
 Print Assumptions C13_cover.
 Print Assumptions C13_dispatch_total.
+Print Assumptions C13_no_loop.
 Print Assumptions C13_partial.
 Print Assumptions C13_edits_mode.
 Print Assumptions C13_refuted.
